@@ -45,7 +45,7 @@ def parseHandle (s : String) : Nat :=
 def errTok : Err → String
   | .closed => "closed" | .readOnlyMode => "readonly" | .roTx => "rotx" | .svcRoTx => "rotx-svc" | .keySize => "keysize"
   | .valueSize => "valuesize" | .batchSize => "batchsize" | .badOp => "badop" | .noHandle => "nohandle" | .txClosed => "txclosed"
-  | .storageClosed => "storageclosed" | .badEntry => "badentry"
+  | .storageClosed => "storageclosed" | .badEntry => "badentry" | .recordTooLarge => "recordtoolarge"
 
 def showPairs (l : List (Bytes × Bytes)) : String :=
   if l.isEmpty then "scan:0"
